@@ -12,14 +12,51 @@ Trace == ndJsonDeserialize(IOEnv.VERIF_TRACE)
 Ev(x) == [d |-> IF x.hi >= 16384 \/ x.hi < 0 \/ x.lo < 0 \/ x.lo > 65535 THEN CvBig ELSE x.hi * 65536 + x.lo, m |-> x.m]
 Evs(t) == [i \in 1..Len(t) |-> Ev(t[i])]
 
+(* Files longer than 2^30 ticks (up to any length: the absolute tick of an event need not fit 32 bits).  The clauses of
+   Convert use the absolute ticks only through equality and order, so such a file is judged on an order-isomorphic
+   copy: absolute ticks are computed exactly in two limbs [q, r] (tick = q * 2^28 + r), every tick that occurs in the
+   source or in the result is replaced by its RANK among them (0 stays 0), and deltas become rank differences.       *)
+WLimb == 268435456
+W2(x)  == [q |-> x.hi \div 4096, r |-> (x.hi % 4096) * 65536 + x.lo]
+HalvesOk(x) == x.hi >= 0 /\ x.hi <= 65535 /\ x.lo >= 0 /\ x.lo <= 65535
+WAdd(a, b) == LET r == a.r + b.r IN IF r >= WLimb THEN [q |-> a.q + b.q + 1, r |-> r - WLimb] ELSE [q |-> a.q + b.q, r |-> r]
+WLess(a, b) == a.q < b.q \/ (a.q = b.q /\ a.r < b.r)
+W0 == [q |-> 0, r |-> 0]
+\* absolute ticks of the events of a track given as halves
+WAbs(t) == FoldLeft(LAMBDA acc, x : [t |-> WAdd(acc.t, W2(x)), s |-> Append(acc.s, WAdd(acc.t, W2(x)))], [t |-> W0, s |-> <<>>], t).s
+WideSrcOk(e) ==
+  /\ Len(e.src) >= 1 /\ Len(e.src) <= 1000
+  /\ \A i \in 1..Len(e.src) : HalvesOk(e.src[i]) /\ e.src[i].hi < 4096 /\ CvWellFormed(e.src[i].m)
+  /\ CvTerminated([i \in 1..Len(e.src) |-> [d |-> 0, m |-> e.src[i].m]])
+WideOk(e) == WideSrcOk(e) /\ \A k \in 1..Len(e.dtracks) : \A i \in 1..Len(e.dtracks[k]) : HalvesOk(e.dtracks[k][i])
+Ranked(e) ==
+  LET sa == WAbs(e.src)
+      da == [k \in 1..Len(e.dtracks) |-> WAbs(e.dtracks[k])]
+      all == {W0} \cup {sa[i] : i \in DOMAIN sa} \cup UNION {{da[k][i] : i \in DOMAIN da[k]} : k \in DOMAIN da}
+      rank(t) == Cardinality({u \in all : WLess(u, t)})
+      re(t, a) == [i \in 1..Len(t) |-> [d |-> rank(a[i]) - (IF i = 1 THEN 0 ELSE rank(a[i - 1])), m |-> t[i].m]]
+  IN [src |-> re(e.src, sa), dtracks |-> [k \in 1..Len(e.dtracks) |-> re(e.dtracks[k], da[k])]]
+\* is the source longer than the plain arithmetic of Convert can carry?
+IsWide(e) == \/ \E i \in 1..Len(e.src) : ~HalvesOk(e.src[i])
+             \/ FoldLeft(LAMBDA t, x : CvPlus(t, Ev(x).d), 0, e.src) >= CvBig
+
 Judge(e) ==
-  LET src == [div |-> e.div, track |-> Evs(e.src)] IN
-  IF ~(e.sfmt = 0 /\ e.sntracks = 1 /\ CvInDomain(src))
+  LET wide == IsWide(e)
+      rk  == IF wide /\ WideOk(e) THEN Ranked(e) ELSE [src |-> <<>>, dtracks |-> <<>>]
+      src == [div |-> e.div, track |-> IF wide THEN rk.src ELSE Evs(e.src)] IN
+  IF ~e.previntact
+    THEN [ok |-> FALSE, info |-> [id |-> e.id, genbug |-> FALSE, why |-> "the result of the previous conversion changed when this file was converted"]]
+  ELSE IF wide /\ ~WideSrcOk(e)
+    THEN [ok |-> FALSE, info |-> [id |-> e.id, genbug |-> TRUE, why |-> "source outside the domain of the property"]]
+  ELSE IF wide /\ ~WideOk(e)
+    THEN [ok |-> FALSE, info |-> [id |-> e.id, genbug |-> FALSE, why |-> "malformed delta in the result"]]
+  ELSE IF ~(e.sfmt = 0 /\ e.sntracks = 1 /\ CvInDomain(src))
     THEN [ok |-> FALSE, info |-> [id |-> e.id, genbug |-> TRUE, why |-> "source outside the domain of the property"]]
   ELSE IF e.pan # ""
     THEN [ok |-> FALSE, info |-> [id |-> e.id, genbug |-> FALSE, why |-> "panic", pan |-> e.pan]]
   ELSE
-    LET dest == [fmt |-> e.dfmt, div |-> e.ddiv, tracks |-> [i \in 1..Len(e.dtracks) |-> Evs(e.dtracks[i])]]
+    LET dest == [fmt |-> e.dfmt, div |-> e.ddiv,
+                 tracks |-> IF wide THEN rk.dtracks ELSE [i \in 1..Len(e.dtracks) |-> Evs(e.dtracks[i])]]
         c == CvClauses(src, dest)
         s == CvItems(src.track)
         okc == c.div /\ c.terminated /\ c.nothingLost /\ c.placement /\ c.order
